@@ -1710,7 +1710,13 @@ else:
           if hasattr(adict,'__asdict__'): adict = adict.__asdict__()
           else: adict = dict(adict) # a copy; also accepts (key,value) pairs
           adict.update(**kwds)
-          [self.__setitem__(k,v) for (k,v) in adict.items()]
+          sql = "insert into %s values(?,?)" % self.__state__['id']
+          try: # all or nothing
+              self._engine.executemany(sql, list(adict.items()))
+          except:
+              self._conn.rollback()
+              raise
+          self._conn.commit()
           return
       update.__doc__ = dict.update.__doc__
       def _select_key_items(self, key):
